@@ -21,27 +21,28 @@ var errConnClosed = errors.New("connection closed")
 // connPlan is the behaviour of one connection attempt: of the dialer, of the
 // carrier (fail / hold the k-th Send, fail the k-th Receive) and of the broker peer.
 type connPlan struct {
-	refuse       bool           // Dialer returns an error
-	failSend     int            // k-th Send on this connection fails (1 = CONNECT)
-	holdSend     int            // k-th Send blocks (after it was recorded) until gate holdGate opens
-	holdGate     string         //
-	failRecv     int            // k-th Receive fails
-	connack      string         // "ok" (default) | "none" | "deny" | "drop" | "gate:<name>" (ok after the gate opened)
-	sp           bool           // session present flag of the CONNACK
-	dropAtOnce   bool           // peer closes right after the CONNACK
-	dropAfter    int            // peer closes when it receives the k-th request (without acknowledging it)
-	dropAfterAck int            // peer closes right after acknowledging the k-th request
-	noAck        map[int]bool   // the k-th request is never acknowledged on this connection
-	reject       map[int]bool   // the k-th request (a SUBSCRIBE) is answered with failure codes
-	gateAck      map[int]string // the acknowledgement of the k-th request waits for a gate
+	refuse       bool             // Dialer returns an error
+	failSend     int              // k-th Send on this connection fails (1 = CONNECT)
+	holdSend     int              // k-th Send blocks (after it was recorded) until gate holdGate opens
+	holdGate     string           //
+	failRecv     int              // k-th Receive fails
+	connack      string           // "ok" (default) | "none" | "deny" | "drop" | "gate:<name>" (ok after the gate opened)
+	sp           bool             // session present flag of the CONNACK
+	dropAtOnce   bool             // peer closes right after the CONNACK
+	dropAfter    int              // peer closes when it receives the k-th request (without acknowledging it)
+	dropAfterAck int              // peer closes right after acknowledging the k-th request
+	noAck        map[int]bool     // the k-th request is never acknowledged on this connection
+	reject       map[int]bool     // the k-th request (a SUBSCRIBE) is answered with failure codes
+	gateAck      map[int]string   // the acknowledgement of the k-th request waits for a gate
 	lateAcks     []packet.Generic // sent right after the CONNACK (acknowledgements for requests of earlier connections)
-	closeErr     bool           // Close returns an error
+	closeErr     bool             // Close returns an error
+	dropGate     string           // the peer closes the connection when this gate opens (after the CONNACK)
 }
 
 // faultFree: the peer of this attempt answers everything promptly and never drops
 func (p connPlan) faultFree() bool {
 	return !p.refuse && p.failSend == 0 && p.holdSend == 0 && p.failRecv == 0 && (p.connack == "" || p.connack == "ok") &&
-		!p.dropAtOnce && p.dropAfter == 0 && p.dropAfterAck == 0 && len(p.noAck) == 0 && len(p.reject) == 0 && len(p.gateAck) == 0
+		!p.dropAtOnce && p.dropGate == "" && p.dropAfter == 0 && p.dropAfterAck == 0 && len(p.noAck) == 0 && len(p.reject) == 0 && len(p.gateAck) == 0
 }
 
 type item struct {
@@ -224,6 +225,9 @@ func (c *memConn) peer() {
 				c.inject(ca)
 				for _, a := range p.lateAcks {
 					c.inject(a)
+				}
+				if p.dropGate != "" {
+					go func() { c.s.waitGate(p.dropGate); c.drop() }()
 				}
 				if p.dropAtOnce {
 					c.drop()
